@@ -69,6 +69,12 @@ def info(comp):
     return INFO.get(comp)
 
 
+def adopt(copy_, original):
+    """a copy (copy.deepcopy, pickle round trip) of a computer has the original's public configuration"""
+    if original in INFO:
+        INFO[copy_] = INFO[original]
+
+
 def window_for(args, style, width):
     """window samples from a *fresh* WindowFunction of the configured kind"""
     from pydrobert.speech.alias import alias_factory_subclass_from_arg
